@@ -77,6 +77,7 @@ def st_aave(draw, n):
 @st.composite
 def st_opt(draw, start, n, eth0):
     hs = (start + n - 1) // 60 - start // 60 + 1
+    dyadic = draw(st.integers(0, 3)) == 0  # binary-exact price grid with tiny marks: levels exactly on mark x 1.5 / 2 / 3
     inst = []
     for i in range(draw(st.integers(1, 3))):
         kind = draw(st.sampled_from(["CALL", "PUT"]))
@@ -88,8 +89,8 @@ def st_opt(draw, start, n, eth0):
         else:
             exp_min = start - draw(st.integers(0, 90))
         strike = int(eth0) + draw(st.sampled_from([-400, -100, -20, 0, 20, 100, 400]))
-        inst.append({"type": kind, "strike": max(strike, 1), "exp_min": exp_min, "marks": [draw(st.integers(1, 300)) for _ in range(hs + 1)], "listed_at_expiry": draw(st.sampled_from([True, True, False]))})
-    return {"instruments": inst, "asks": [draw(st.sampled_from([1, 5, 40, 1000])) for _ in range(draw(st.integers(1, 3)))], "bids": [draw(st.sampled_from([1, 5, 40, 1000])) for _ in range(draw(st.integers(1, 3)))]}
+        inst.append({"type": kind, "strike": max(strike, 1), "exp_min": exp_min, "marks": [draw(st.integers(1, 4) if dyadic else st.integers(1, 300)) for _ in range(hs + 1)], "listed_at_expiry": draw(st.sampled_from([True, True, False]))})
+    return {"dyadic": dyadic, "instruments": inst, "asks": [draw(st.sampled_from([1, 5, 40, 1000])) for _ in range(draw(st.integers(1, 3)))], "bids": [draw(st.sampled_from([1, 5, 40, 1000])) for _ in range(draw(st.integers(1, 3)))]}
 
 
 @st.composite
@@ -178,7 +179,7 @@ def st_op(draw, key, rich=True):
         if k == "burn_withdraw":
             return [key, k, draw(st.integers(0, 2)), draw(st.sampled_from(["0", "0.3", "1", "2"])), draw(st.sampled_from(["0", "0.2", "0.9", "1", "5"]))]
         if k == "lp_deposit":
-            return [key, k, draw(st.integers(0, 2)), draw(st.integers(0, 2))]
+            return [key, k, draw(st.integers(0, 2)), draw(st.integers(0, 2)), draw(st.sampled_from([False, False, True]))]
         if k == "lp_withdraw":
             return [key, k, draw(st.integers(0, 2))]
         return [key, k, f]
@@ -186,7 +187,7 @@ def st_op(draw, key, rich=True):
         k = draw(st.sampled_from(["deposit", "deposit", "withdraw", "buy", "buy", "buy", "sell", "sell"]))
         if k in ("deposit", "withdraw"):
             return [key, k, f]
-        mode = draw(st.sampled_from([None, None, None, ["cap", "1.02"], ["cap", "1.5"], ["cap", "3"], ["token", 0], ["token", 1], ["usd", 0]]))
+        mode = draw(st.sampled_from([None, None, None, ["cap", "1.02"], ["cap", "1.5"], ["cap", "2"], ["cap", "3"], ["token", 0], ["token", 1], ["usd", 0]]))
         return [key, k, draw(st.integers(0, 3)), draw(st.sampled_from(["0.4", "1", "2", "7", "45", "5000"])), mode]
     if key == "glp":
         k = draw(st.sampled_from(["buy_glp", "buy_glp", "sell_glp"]))
@@ -260,7 +261,8 @@ def st_prog(draw, order, nbars, mode="loop", max_ops=14, open_bars=()):
             motif = [[key, "buy", "0.2"], [key, "add", draw(st.integers(-6, 0)), draw(st.integers(7, 14)), "0.5", "0.5"], [key, "remove", 0, draw(st.sampled_from([None, "0.5", over])), False], [key, "collect", 0, over, draw(st.sampled_from([None, over]))]]
         elif mk == "sq":
             motif = [["squni", "buy", "0.2"], ["squni", "add", draw(st.integers(-6, -1)), draw(st.integers(7, 14)), "0.5", "0.2"], ["sq", "open", "1", draw(st.sampled_from(["0", "0.5"])), True],
-                     draw(st.sampled_from([["squni", "remove", 0, None, True], ["squni", "remove_all"], ["squni", "collect", 0, None, None], ["sq", "lp_withdraw", 0], ["squni", "add", 0, 1, "0.1", "0.1"]])), ["sq", "burn_withdraw", 0, over, over]]
+                     draw(st.sampled_from([["squni", "remove", 0, None, True], ["squni", "remove_all"], ["squni", "collect", 0, None, None], ["sq", "lp_withdraw", 0], ["squni", "add", 0, 1, "0.1", "0.1"], ["sq", "open", "1", "0", False]])),
+                     draw(st.sampled_from([["sq", "lp_deposit", 1, 0, True], ["sq", "lp_deposit", 0, 0, True], ["sq", "burn_withdraw", 0, over, over]])), ["sq", "burn_withdraw", 0, over, over]]
         elif mk == "opt":
             motif = [["opt", "deposit", "0.5"], ["opt", "buy", 0, "2", draw(st.sampled_from([None, ["cap", "3"], ["usd", 0]]))], ["opt", "sell", 0, draw(st.sampled_from(["1", "2", "3", "45"])), draw(st.sampled_from([None, ["cap", "3"], ["token", 0]]))], ["opt", "withdraw", over]]
         elif mk == "aave":
